@@ -749,6 +749,311 @@ Local Open Scope N_scope.
 """
 
 
+# ---------------------------------------------------------------- the obligation: translate, compile, re-check the proof
+
+VERIF = os.path.dirname(os.path.dirname(os.path.abspath(__file__)))
+
+FORBIDDEN_TOKENS = ("Admitted", "admit", "Axiom", "Axioms", "Parameter", "Parameters", "Conjecture", "Conjectures",
+                    "Variable", "Variables", "Hypothesis", "Hypotheses", "Context", "Unset", "Set", "bypass_check")
+
+TEMPLATE_BLOCK = "(* GENERATED-BEGIN *)\nFrom Baize Require %(pid)s.Generated_ref.\nModule G := Baize.%(pid)s.Generated_ref.\n(* GENERATED-END *)\n"
+FRESH_BLOCK = "(* GENERATED-BEGIN *)\nFrom Fresh Require Generated.\nModule G := Fresh.Generated.\n(* GENERATED-END *)\n"
+
+
+def strip_coq_comments(src):
+    out, depth, i, instr = [], 0, 0, False
+    while i < len(src):
+        if depth and src[i] == '"':
+            instr = not instr
+            i += 1
+        elif not instr and src.startswith("(*", i):
+            depth += 1
+            i += 2
+        elif not instr and src.startswith("*)", i) and depth:
+            depth -= 1
+            i += 2
+        else:
+            if not depth:
+                out.append(src[i])
+            i += 1
+    return "".join(out)
+
+
+def definitions_only(text):
+    """the generated text without comments and without the fixed header"""
+    return "\n".join(l.rstrip() for l in strip_coq_comments(text).splitlines() if l.strip())
+
+
+def run_coqc(args, cwd, timeout):
+    import subprocess
+    try:
+        r = subprocess.run(["timeout", str(int(timeout)), "coqc"] + args, cwd=cwd, capture_output=True, text=True,
+                           timeout=timeout + 10)
+    except subprocess.TimeoutExpired:
+        return 124, "", "coqc did not finish within %d s" % timeout
+    return r.returncode, r.stdout, r.stderr
+
+
+def check_target(pid, repo=None, verif=None, timeout=120, keep=False):
+    """Translate the target functions of property <pid> from the source in <repo> as it is NOW, compile the generated file,
+    and re-run coqc on coq/theories/<pid>/Translated.v against it.  -> [(name, ok, detail)]"""
+    import re
+    import shutil
+    import time
+    repo = repo or os.environ.get("BAIZE_REPO", "/repo")
+    verif = verif or VERIF
+    coq = os.path.join(verif, "coq")
+    specs = TARGETS[pid]
+    name = "%s/Translated.v (%s)" % (pid, ", ".join(sp["func"] for sp in specs))
+    t0 = time.time()
+    try:
+        text = HEADER + "\n".join(translate_spec(repo, sp) for sp in specs)
+    except Unsupported as e:
+        return [(name, False, "the translator does not understand the current source (fail closed; this says nothing "
+                              "about the behaviour of the code): %s" % e)]
+    except (OSError, SyntaxError) as e:
+        return [(name, False, "cannot read the source: %s: %s" % (type(e).__name__, e))]
+    bad = [t for t in FORBIDDEN_TOKENS if re.search(r"\b%s\b" % t, strip_coq_comments(text.replace(HEADER, "")))]
+    if bad:
+        return [(name, False, "generated text contains %s" % bad)]
+    tv = os.path.join(coq, "theories", pid, "Translated.v")
+    tsrc = open(tv).read()
+    block = TEMPLATE_BLOCK % {"pid": pid}
+    if tsrc.count(block) != 1:
+        return [(name, False, "%s does not contain the marked Require block exactly once" % tv)]
+    thms = re.findall(r"^\s*Theorem\s+(\w+)", strip_coq_comments(tsrc), re.M)
+    printed = re.findall(r"Print Assumptions\s+(\w+)\s*\.", strip_coq_comments(tsrc))
+    if not thms or [t for t in thms if t not in printed]:
+        return [(name, False, "Translated.v: no theorem, or a theorem without Print Assumptions")]
+    d = os.path.join(verif, ".work", "translate-%s-%d" % (pid, os.getpid()))
+    fresh = os.path.join(d, "Fresh")
+    shutil.rmtree(d, ignore_errors=True)
+    os.makedirs(fresh)
+    try:
+        with open(os.path.join(fresh, "Generated.v"), "w") as f:
+            f.write(text)
+        with open(os.path.join(fresh, "Translated.v"), "w") as f:
+            f.write(tsrc.replace(block, FRESH_BLOCK))
+        base = ["-Q", "theories", "Baize", "-Q", fresh, "Fresh"]
+        rc, out, err = run_coqc(base + [os.path.join(fresh, "Generated.v")], coq, timeout)
+        if rc != 0:
+            return [(name, False, "the generated definition does not compile (rc %d): %s" % (rc, (err or out)[-600:]))]
+        rc, out, err = run_coqc(base + [os.path.join(fresh, "Translated.v")], coq, timeout)
+        if rc != 0:
+            return [(name, False, "the proof that the function translated from the current source equals the model function "
+                                  "no longer checks (rc %d): %s" % (rc, " ".join((err or out).split())[-600:]))]
+        closed = out.count("Closed under the global context")
+        if closed != len(printed) or "Axioms:" in out:
+            return [(name, False, "Print Assumptions: %d of %d closed under the global context: %s" % (closed, len(printed), out[-300:]))]
+        ref = os.path.join(coq, "theories", pid, "Generated_ref.v")
+        same = os.path.exists(ref) and definitions_only(open(ref).read()) == definitions_only(text)
+        return [(name, True, "%d theorem(s) re-checked against the definition translated from %s (%s the committed reference "
+                             "copy), closed under the global context, %.1f s" % (
+                                 len(thms), ", ".join(sorted({sp["file"] for sp in specs})),
+                                 "identical to" if same else "DIFFERENT from", time.time() - t0))]
+    finally:
+        if not keep:
+            shutil.rmtree(d, ignore_errors=True)
+
+
+# ---------------------------------------------------------------- Lib/PyStr.v against the interpreter's str methods
+#
+# Every PyStr function is evaluated inside coqc (vm_compute) on every word up to length 3 over a hostile 18-letter
+# alphabet and up to length 4 over a 6-letter one (the words are enumerated in Coq, not written as literals), the
+# results are hashed per function, and the same hash is computed from the interpreter's own str methods.  A function
+# whose hash differs is evaluated again word by word to name the first word on which it differs.
+
+HOSTILE = [0, 9, 10, 11, 12, 13, 28, 31, 32, 34, 42, 44, 47, 87, 97, 133, 160, 0x2028]
+SMALL = [32, 34, 44, 87, 47, 97]
+M31 = 2 ** 31 - 1      # hashes: shift, add, mask (cheap inside the kernel's virtual machine; an odd multiplier, so one
+                       # differing member always changes the sum)
+
+
+def _hs(r):
+    a = 7
+    for c in r:
+        a = (a * 33 + ord(c) + 1) & M31
+    return a
+
+
+def _hb(b):
+    return 2 if b else 1
+
+
+def _hl(r):
+    a = 11
+    for m in r:
+        a = (a * 129 + _hs(m) + 3) & M31
+    return a
+
+
+def _hall(hs):
+    a = 13
+    for h in hs:
+        a = (a * 65 + h + 5) & M31
+    return a
+
+
+def _words(alpha, n):
+    import itertools
+    out = []
+    for k in range(n + 1):
+        out.extend("".join(chr(c) for c in t) for t in itertools.product(alpha, repeat=k))
+    return out
+
+
+def _coq_str(s):
+    return "[%s]" % "; ".join(str(ord(c)) for c in s)
+
+
+def pystr_checks():
+    """[(label, domain, coq function : domain element -> N, python function)]
+    domains: W = words <= 3 over HOSTILE and <= 4 over SMALL; WM = words <= 4 over SMALL; WS = words <= 5 over 3 letters"""
+    cs = []
+
+    def add(label, coq, py, dom="W"):
+        cs.append((label, dom, coq, py))
+    add("not s", "fun s => hb (is_empty s)", lambda s: _hb(not s))
+    add("len(s)", "fun s => Z.to_N (len s)", lambda s: len(s))
+    add("s.strip()", "fun s => hs (strip_ws s)", lambda s: _hs(s.strip()))
+    add("s.lstrip()", "fun s => hs (lstrip_ws s)", lambda s: _hs(s.lstrip()))
+    add("s.rstrip()", "fun s => hs (rstrip_ws s)", lambda s: _hs(s.rstrip()))
+    for ch in ['"', '" ', "", ",\x85a", "W/"]:
+        dom = "W" if ch in ('"', '" ') else "WM"
+        add("s.strip(%r)" % ch, "fun s => hs (strip_chars %s s)" % _coq_str(ch), lambda s, ch=ch: _hs(s.strip(ch)), dom)
+        add("s.lstrip(%r)" % ch, "fun s => hs (lstrip_chars %s s)" % _coq_str(ch), lambda s, ch=ch: _hs(s.lstrip(ch)), dom)
+        add("s.rstrip(%r)" % ch, "fun s => hs (rstrip_chars %s s)" % _coq_str(ch), lambda s, ch=ch: _hs(s.rstrip(ch)), dom)
+    for p in ["W/", "", "a", "aa", "/", '"', " ", "a/"]:
+        dom = "W" if p == "W/" else "WM"
+        add("s.startswith(%r)" % p, "fun s => hb (starts_with %s s)" % _coq_str(p), lambda s, p=p: _hb(s.startswith(p)), dom)
+        add("s.endswith(%r)" % p, "fun s => hb (ends_with %s s)" % _coq_str(p), lambda s, p=p: _hb(s.endswith(p)), dom)
+        add("%r in s" % p, "fun s => hb (contains %s s)" % _coq_str(p), lambda s, p=p: _hb(p in s), dom)
+    for p in ["\n", "\r", "\0", ","]:
+        add("%r in s" % p, "fun s => hb (contains %s s)" % _coq_str(p), lambda s, p=p: _hb(p in s))
+    for sep in [",", "W/", "aa", "a", " ", '","', "aWa"]:
+        add("s.split(%r)" % sep, "fun s => hl (split %s s)" % _coq_str(sep), lambda s, sep=sep: _hl(s.split(sep)),
+            "W" if sep == "," else "WM")
+    for a in range(5):
+        add("s[%d:]" % a, "fun s => hs (slice_from %d s)" % a, lambda s, a=a: _hs(s[a:]), "WS")
+        add("s[:%d]" % a, "fun s => hs (slice_to %d s)" % a, lambda s, a=a: _hs(s[:a]), "WS")
+        for b in range(5):
+            add("s[%d:%d]" % (a, b), "fun s => hs (slice %d %d s)" % (a, b), lambda s, a=a, b=b: _hs(s[a:b]), "WS")
+    add("s[len(s):]", "fun s => hs (slice_from (length s) s)", lambda s: _hs(s[len(s):]), "WS")
+    add("a == b", "fun ab => hb (str_eqb (fst ab) (snd ab))", lambda ab: _hb(ab[0] == ab[1]), "PAIRS")
+    add("a + b", "fun ab => hs (fst ab ++ snd ab)", lambda ab: _hs(ab[0] + ab[1]), "PAIRS")
+    add("a.startswith(b)", "fun ab => hb (starts_with (snd ab) (fst ab))", lambda ab: _hb(ab[0].startswith(ab[1])), "PAIRS")
+    add("a.endswith(b)", "fun ab => hb (ends_with (snd ab) (fst ab))", lambda ab: _hb(ab[0].endswith(ab[1])), "PAIRS")
+    add("b in a", "fun ab => hb (contains (snd ab) (fst ab))", lambda ab: _hb(ab[1] in ab[0]), "PAIRS")
+
+    def dict_py(ks):
+        d = {}
+        for k in ks:
+            d[k] = chr(len(d))
+        return _hl([x for kv in d.items() for x in kv])
+    add("d[k] = v", "fun ks => hl (flat_map (fun kv => [fst kv; snd kv]) "
+                    "(fold_left (fun d k => dict_set k [N.of_nat (length d)] d) ks []))", dict_py, "KEYSEQS")
+    return cs
+
+
+PYSTR_PRELUDE = """From Coq Require Import List NArith ZArith Bool.
+From Baize Require Import Lib.PyStr.
+Import ListNotations.
+Local Open Scope N_scope.
+Definition M31 : N := 2147483647.
+Definition hs (r : str) : N := fold_left (fun a c => N.land (N.shiftl a 5 + a + c + 1) M31) r 7.
+Definition hb (b : bool) : N := if b then 2 else 1.
+Definition hl (r : list str) : N := fold_left (fun a m => N.land (N.shiftl a 7 + a + hs m + 3) M31) r 11.
+Definition hall (rs : list N) : N := fold_left (fun a h => N.land (N.shiftl a 6 + a + h + 5) M31) rs 13.
+Fixpoint exact {T : Type} (alpha : list T) (n : nat) : list (list T) :=
+  match n with O => [[]] | S k => flat_map (fun c => map (cons c) (exact alpha k)) alpha end.
+Fixpoint upto {T : Type} (alpha : list T) (n : nat) : list (list T) :=
+  match n with O => exact alpha 0 | S k => upto alpha k ++ exact alpha (S k) end.
+Definition HOSTILE : list N := %(hostile)s.
+Definition SMALL : list N := %(small)s.
+Definition W : list str := upto HOSTILE 3 ++ upto SMALL 4.
+Definition WM : list str := upto SMALL 4.
+Definition WS : list str := upto [97; 47; 32] 5.
+Definition W2 : list str := upto SMALL 2.
+Definition PAIRS : list (str * str) := flat_map (fun a => map (fun b => (a, b)) W2) (upto SMALL 3).
+Definition KEYSEQS : list (list str) := upto [[]; [97]; [98]; [65]; [97; 98]] 4.
+Fixpoint upfrom (n : nat) (c : N) : list N := match n with O => [] | S k => c :: upfrom k (N.succ c) end.
+Definition SPACES : list N := filter is_space (upfrom (64 * 196 + 1) 0).   (* code points 0 .. 0x3100 *)
+"""
+
+
+def pystr_domains():
+    import itertools
+    w2 = _words(SMALL, 2)
+    keys = ["", "a", "b", "A", "ab"]
+    return {"W": _words(HOSTILE, 3) + _words(SMALL, 4), "WM": _words(SMALL, 4), "WS": _words([97, 47, 32], 5),
+            "PAIRS": [(a, b) for a in _words(SMALL, 3) for b in w2],
+            "KEYSEQS": [list(t) for k in range(5) for t in itertools.product(keys, repeat=k)]}
+
+
+def pystr_check(verif=None, timeout=120, keep=False):
+    """-> [(name, ok, detail)]: Lib/PyStr.v evaluated by coqc against the str methods of the running interpreter"""
+    import re
+    import shutil
+    import time
+    verif = verif or VERIF
+    coq = os.path.join(verif, "coq")
+    name = "Lib/PyStr.v against the interpreter's str methods"
+    t0 = time.time()
+    checks = pystr_checks()
+    doms = pystr_domains()
+    d = os.path.join(verif, ".work", "pystr-%d" % os.getpid())
+    shutil.rmtree(d, ignore_errors=True)
+    os.makedirs(d)
+    prelude = PYSTR_PRELUDE % {"hostile": "[%s]" % "; ".join(map(str, HOSTILE)), "small": "[%s]" % "; ".join(map(str, SMALL))}
+
+    def evaluate(fname, lines):
+        vf = os.path.join(d, fname)
+        with open(vf, "w") as f:
+            f.write(prelude + "".join(lines))
+        rc, out, err = run_coqc(["-Q", "theories", "Baize", vf], coq, timeout)
+        if rc != 0:
+            raise RuntimeError("coqc rc %d: %s" % (rc, (err or out)[-400:]))
+        blocks = re.split(r"\n\s*: (?:N|list N)\b", out)
+        return [[int(x) for x in re.findall(r"\b(\d+)(?:%N)?\b", b.split("=", 1)[1])] for b in blocks if "=" in b]
+
+    try:
+        try:
+            res = evaluate("PyStrCheck.v", ["Eval vm_compute in SPACES.\n"] +
+                           ["Eval vm_compute in (hall (map (%s) %s)).\n" % (coq_f, dom) for _, dom, coq_f, _ in checks])
+        except RuntimeError as e:
+            return [(name, False, str(e))]
+        if len(res) != len(checks) + 1:
+            return [(name, False, "expected %d results from coqc, parsed %d" % (len(checks) + 1, len(res)))]
+        bad = []
+        py_spaces = [c for c in range(0x110000) if chr(c).isspace()]
+        strip_spaces = [c for c in range(0x110000) if (chr(c) + "x" + chr(c)).strip() == "x"]
+        if res[0] != py_spaces or strip_spaces != py_spaces:
+            bad.append("is_space: PyStr %s, str.isspace %s, removed by str.strip() %s" % (
+                sorted(set(res[0]) ^ set(py_spaces)), len(py_spaces), sorted(set(strip_spaces) ^ set(py_spaces))))
+        n_eval = 0
+        for (label, dom, coq_f, py_f), r in zip(checks, res[1:]):
+            n_eval += len(doms[dom])
+            want = _hall([py_f(x) for x in doms[dom]])
+            if r != [want]:
+                # word by word
+                try:
+                    per = evaluate("PyStrDetail.v", ["Eval vm_compute in (map (%s) %s).\n" % (coq_f, dom)])[0]
+                except RuntimeError as e:
+                    per = []
+                first = next((x for x, h in zip(doms[dom], per) if py_f(x) != h), None)
+                bad.append("%s differs from PyStr, first on %r" % (label, first))
+                if len(bad) >= 3:
+                    break
+        if bad:
+            return [(name, False, "; ".join(bad)[:600])]
+        return [(name, True, "%d functions/argument shapes, %d evaluations inside coqc (every word of length <= 3 over %d hostile code "
+                             "points and <= 4 over %d), is_space = str.isspace on all code points, %.1f s" % (
+                                 len(checks), n_eval, len(HOSTILE), len(SMALL), time.time() - t0))]
+    finally:
+        if not keep:
+            shutil.rmtree(d, ignore_errors=True)
+
+
 def main():
     ap = argparse.ArgumentParser()
     ap.add_argument("--repo", default=os.environ.get("BAIZE_REPO", "/repo"))
@@ -760,7 +1065,15 @@ def main():
     ap.add_argument("--typevar", action="append", default=[])
     ap.add_argument("--opaque", action="append", default=[])
     ap.add_argument("-o", "--out")
+    ap.add_argument("--check", action="store_true", help="with --target: translate, compile, re-check Translated.v")
+    ap.add_argument("--pystr-check", action="store_true", help="compare Lib/PyStr.v with this interpreter's str methods")
+    ap.add_argument("--keep", action="store_true", help="keep the scratch directory under .work")
     a = ap.parse_args()
+    if a.pystr_check or (a.check and a.target):
+        res = pystr_check(keep=a.keep) if a.pystr_check else check_target(a.target, a.repo, keep=a.keep)
+        for name, ok, detail in res:
+            print("%s: %s — %s" % ("ok" if ok else "BROKEN", name, detail))
+        return 0 if all(ok for _, ok, _ in res) else 1
     if a.target:
         if a.target not in TARGETS:
             print("py2coq: unknown target %s" % a.target, file=sys.stderr)
